@@ -190,8 +190,17 @@ func (e *explainer) explain(goal ast.Atom, depth int) []*ProofNode {
 		return []*ProofNode{{Fact: goal, Partial: true, ID: partialID(goal)}}
 	}
 	h := goal.Hash()
+	// taint is the stack position of a goal being proved on which the
+	// result computed here depends (noCut if none).
+	taint := noCut
 	if cached, ok := e.cache[h]; ok {
-		return cached
+		taint = minStackPos(cached, e.onStack, map[*ProofNode]bool{})
+		if taint == noCut {
+			return cached
+		}
+		// A memoized proof uses a fact that is being proved right now;
+		// reusing it here would make that fact its own ancestor. Search
+		// again in this context.
 	}
 	if pos, ok := e.onStack[h]; ok {
 		if pos < e.minCut {
@@ -246,6 +255,9 @@ func (e *explainer) explain(goal ast.Atom, depth int) []*ProofNode {
 
 	// A result that was computed while a proper ancestor was cut out of the
 	// search is only valid below that ancestor; do not reuse it elsewhere.
+	if taint < e.minCut {
+		e.minCut = taint
+	}
 	if e.minCut >= myPos {
 		e.cache[h] = proofs
 	}
@@ -257,6 +269,27 @@ func (e *explainer) explain(goal ast.Atom, depth int) []*ProofNode {
 
 // noCut is the value of minCut when no cycle cut happened.
 const noCut = int(^uint(0) >> 1)
+
+// minStackPos returns the lowest stack position of a fact that occurs in
+// the given proofs and is currently being proved, or noCut.
+func minStackPos(proofs []*ProofNode, onStack map[uint64]int, seen map[*ProofNode]bool) int {
+	min := noCut
+	for _, p := range proofs {
+		if seen[p] {
+			continue
+		}
+		seen[p] = true
+		if p.Kind != KindAbsence {
+			if pos, ok := onStack[p.Fact.Hash()]; ok && pos < min {
+				min = pos
+			}
+		}
+		if pos := minStackPos(p.Premises, onStack, seen); pos < min {
+			min = pos
+		}
+	}
+	return min
+}
 
 // bodySolution carries a successful body unifier plus the ground premise
 // atoms and their sub-proofs.
